@@ -310,6 +310,7 @@ where
             port_allocator.clone(),
             remote_listener_dropped,
             terminate_tx.clone(),
+            multiplexer.local_cfg.ports_exhausted,
         );
         let listener = Listener::new(listen_wait_rx, listen_no_wait_rx, port_allocator, terminate_tx);
 
